@@ -240,7 +240,9 @@ def put_reply_meaning(F, p):
 
 def _is_control_test(fl, t):
     ao = fl.origins(t['args'][1]) if len(t['args']) > 1 else set()
-    return callee(t).endswith('::starts_with') and bool(ao) and all(o.kind == 'const' and o.key == '.copia' for o in ao)
+    # component-wise: Path::starts_with(".copia") is the control directory and what is under it; the same call on a string is
+    # a character prefix and also hides `.copiaignore`, `.copia-hooks/..` (user files the hub would then never list)
+    return callee(t) in ('std::path::Path::starts_with', 'std::path::PathBuf::starts_with') and bool(ao) and all(o.kind == 'const' and o.key == '.copia' for o in ao)
 
 
 def list_hides_only_control(F):
